@@ -241,3 +241,82 @@ func c18FalseFamily(r *harness.Run) {
 	r.Nontrivial("falselist-family")
 	r.AddSample(map[string]interface{}{"family": "lists holding false", "depth": depth, "example_history": []string{"insert(t,1)", "insert(t,false)", "t[n+1]=1", "t[n]=nil", "insert(t,1)"}})
 }
+
+// c18LargeLists — the list functions on lists far longer than the value stack is deep (the default
+// registry holds 5120 values): concat with and without separator and range, insert/remove at both
+// ends, maxn/getn/#, and the *type* of concat's result for one- and many-element lists.
+func c18LargeLists(r *harness.Run) {
+	L := lua.NewState()
+	defer L.Close()
+	for _, n := range []int{1, 2, 2559, 2560, 2561, 2700, 5119, 5120, 5121, 20000} {
+		for _, kind := range []string{"num", "str", "mixed"} {
+			elem := func(i int) (lit string, text string) {
+				switch {
+				case kind == "num" || kind == "mixed" && i%2 == 0:
+					return fmt.Sprint(i % 10), fmt.Sprint(i % 10)
+				default:
+					return fmt.Sprintf("%q", string(rune('a'+i%26))), string(rune('a' + i%26))
+				}
+			}
+			var all, sep, tail []string
+			for i := 1; i <= n; i++ {
+				_, t := elem(i)
+				all = append(all, t)
+				if i >= n-2 {
+					tail = append(tail, t)
+				}
+			}
+			_ = sep
+			src := fmt.Sprintf(`local n, kind = %d, %q
+local t = {}
+for i = 1, n do
+  if kind == "num" or (kind == "mixed" and i %% 2 == 0) then t[i] = i %% 10 else t[i] = string.char(97 + i %% 26) end
+end
+local a = table.concat(t)
+local b = table.concat(t, ",")
+local c = table.concat(t, "--", math.max(n - 2, 1), n)
+local d = table.concat(t, ",", n, n)
+local l1, l2, l3 = #t, table.getn(t), table.maxn(t)
+table.insert(t, "Z")
+table.insert(t, 1, "A")
+local e = #t .. ":" .. tostring(t[1]) .. tostring(t[2]) .. tostring(t[#t])
+local r1 = table.remove(t, 1)
+local r2 = table.remove(t)
+local f = #t .. ":" .. tostring(r1) .. tostring(r2) .. tostring(t[1]) .. tostring(t[#t])
+return a, b, c, d, type(a), type(d), l1, l2, l3, e, f`, n, kind)
+			fn, err := L.LoadString(src)
+			if err != nil {
+				harness.Fatal("c18 large: %v", err)
+			}
+			L.Push(fn)
+			sig := fmt.Sprintf("large/n=%d/%s", n, kind)
+			r.Eval(sig, true, func() interface{} { return map[string]interface{}{"case": "large list", "n": n, "elements": kind} })
+			if err := L.PCall(0, lua.MultRet, nil); err != nil {
+				r.Violation(sig+"/error", fmt.Sprintf("list functions on a list of %d elements raised: %v", n, err), map[string]interface{}{"source": src})
+				L.SetTop(0)
+				continue
+			}
+			first, _ := elem(1)
+			_ = first
+			_, e1 := elem(1)
+			_, en := elem(n)
+			want := []string{strings.Join(all, ""), strings.Join(all, ","), strings.Join(tail, "--"), en, "string", "string", fmt.Sprint(n), fmt.Sprint(n), fmt.Sprint(n),
+				fmt.Sprintf("%d:A%sZ", n+2, e1), fmt.Sprintf("%d:AZ%s%s", n, e1, en)}
+			names := []string{"concat(t)", "concat(t,',')", "concat(t,'--',n-2,n)", "concat(t,',',n,n)", "type(concat(t))", "type(concat(t,',',n,n))", "#t", "getn", "maxn", "after-insert", "after-remove"}
+			for i, w := range want {
+				got := L.Get(i + 1).String()
+				if got != w {
+					show := func(s string) string {
+						if len(s) > 60 {
+							return s[:30] + "…" + s[len(s)-30:]
+						}
+						return s
+					}
+					r.Violation(sig+"/"+names[i], fmt.Sprintf("%s on a list of %d elements: got %s, expected %s", names[i], n, show(got), show(w)), map[string]interface{}{"source": src})
+					break
+				}
+			}
+			L.SetTop(0)
+		}
+	}
+}
